@@ -28,10 +28,13 @@ THEOREMS = [
     'Pyiga.Props.C05.prolongation_structure',
     'Pyiga.Props.C05.represent_fine_rec', 'Pyiga.Props.C05.virtual_composition',
     'Pyiga.Props.C05.levelwise_eval', 'Pyiga.Props.C05.prolongate_to_spec',
+    'Pyiga.Props.C05.prolongate_to_disparity_irrelevant', 'Pyiga.Props.C05.prolongate_to_inf',
+    'Pyiga.Props.C05.represent_fine_rows', 'Pyiga.Props.C05.represent_fine_rows_entries',
+    'Pyiga.Props.C05.boundary_map', 'Pyiga.Props.C05.face_index_order',
     'Pyiga.Props.C05.thb_virtual_prolongators_wrong', 'Pyiga.Props.C05.prolongate_to_finite_disparity_wrong',
     'Pyiga.Props.C05.prolongate_to_fixed_witness',
 ]
-MODULES = ['Pyiga.Model.TransferKnots', 'Pyiga.Model.Transfer', 'Pyiga.Proofs.CoxDeBoor', 'Pyiga.Proofs.Boehm',
+MODULES = ['Pyiga.Model.TransferKnots', 'Pyiga.Model.Transfer', 'Pyiga.Model.TransferBoundary', 'Pyiga.Proofs.TransferRows', 'Pyiga.Proofs.TransferBoundary', 'Pyiga.Proofs.CoxDeBoor', 'Pyiga.Proofs.Boehm',
            'Pyiga.Proofs.Transfer', 'Pyiga.Proofs.ProlongateTo', 'Pyiga.Props.C05']
 
 KEY_D9 = 'thb-virtual-prolongators-ge3-levels'
